@@ -172,6 +172,16 @@ impl Report {
         false
     }
 
+    /// add `n` further occurrences of a signature that was already recorded
+    pub fn add_hits(&self, sig: &str, n: u64) {
+        let mut g = self.inner.lock().unwrap();
+        if let Some(e) = g.known_hits.get_mut(sig) {
+            e.0 += n as usize;
+        } else if let Some(e) = g.new_sigs.get_mut(sig) {
+            e.0 += n as usize;
+        }
+    }
+
     pub fn machinery_error(&self, msg: impl Into<String>) {
         let mut g = self.inner.lock().unwrap();
         if g.machinery_error.is_none() {
